@@ -283,9 +283,9 @@ def prog : Loc → Option (Nat × Nat)
   | .fOgre ev i _ => some (ev, i)
   | _ => none
 
-/-- the bookkeeping fields -/
+/-- the bookkeeping fields (`keep` is not among them: `.cancel` changes it, and only `.cancel`: `keep_run`) -/
 def frameOf (s : St) :=
-  (s.MAX, s.N, s.flavor, s.drains, s.vacant, s.used, s.count, s.keep, s.slock, s.live, s.inc)
+  (s.MAX, s.N, s.flavor, s.drains, s.vacant, s.used, s.count, s.slock, s.live, s.inc)
 
 /-- what is known about a thread at location `l`: it is not inside `create`/`drop`/`sync`; a walker of the `arc`
     flavour holds the entry it read; a walker of the `ogre_arc` flavour holds the right count, and the reference counter
@@ -836,6 +836,9 @@ theorem fan_apply (h : FanInv s₀ Ev E R P S D s) (hw : WF s₀) (hq0 : ∀ e, 
   | release ev =>
     simp only [sendOf, relOf, List.append_nil]
     exact .same (h.release hq0 (hrel ev (by simp [relOf])) rfl rfl rfl rfl rfl rfl rfl)
+  | cancel id =>
+    simp only [sendOf, relOf, List.append_nil]
+    exact .same ⟨h.frame, h.lok, h.pubsEq, h.sentEq, h.dlvEq, h.core, h.order, h.relLe, h.refsS⟩
   | step t =>
     simp only [sendOf, relOf, List.append_nil]
     exact fan_step h hw hq0 t
@@ -910,6 +913,7 @@ theorem frame_apply {s : St} (a : Act) (ha : FanAct a) (hl : ∀ u, FanLoc (s.th
     · exact ⟨rfl, fanLoc_setThr hl trivial⟩
     · exact ⟨rfl, hl⟩
   | release ev => exact ⟨rfl, hl⟩
+  | cancel id => exact ⟨rfl, hl⟩
   | step t => exact frame_step t hl
   | ack t =>
     simp only [apply]
@@ -924,6 +928,50 @@ theorem frame_run : ∀ (as : List Act) {s : St}, (∀ a, a ∈ as → FanAct a)
     obtain ⟨h1, h2⟩ := frame_apply a (hfa a (by simp)) hl
     obtain ⟨h3, h4⟩ := frame_run as (fun b hb => hfa b (by simp [hb])) h2
     exact ⟨h3.trans h1, h4⟩
+
+/-! ## `keep` changes at `.cancel` only -/
+
+/-- the listener told to end -/
+def cancelOf : Act → List Nat
+  | .cancel id => [id]
+  | _ => []
+
+def cancelIds (as : List Act) : List Nat := as.flatMap cancelOf
+
+theorem keep_step {s : St} (t : Nat) (hl : FanLoc (s.thr t)) : (step s t).keep = s.keep := by
+  cases hc : s.thr t <;> rw [hc] at hl <;> simp only [FanLoc] at hl <;> simp only [step, hc]
+  case fArc ev i id => split <;> (try split) <;> rfl
+  case fCount ev => split <;> rfl
+  case fOgre ev i cnt => split <;> split <;> rfl
+  case pPoll id => split <;> rfl
+
+theorem keep_apply {s : St} (a : Act) (ha : FanAct a) (hl : ∀ u, FanLoc (s.thr u)) (j : Nat) :
+    (apply s a).keep j = if j ∈ cancelOf a then false else s.keep j := by
+  cases a with
+  | create t => exact absurd ha (by simp [FanAct])
+  | drop t id => exact absurd ha (by simp [FanAct])
+  | send t ev =>
+    simp only [apply, cancelOf, List.not_mem_nil, if_false]
+    split
+    · split
+      · split <;> rfl
+      · split <;> rfl
+    · rfl
+  | poll t id => simp only [apply, cancelOf, List.not_mem_nil, if_false]; split <;> rfl
+  | release ev => rfl
+  | cancel id => simp [apply, cancelOf]
+  | step t => simp only [apply, cancelOf, List.not_mem_nil, if_false]; rw [keep_step t (hl t)]
+  | ack t => simp only [apply, cancelOf, List.not_mem_nil, if_false]; split <;> rfl
+
+/-- along a fan-out execution `keep j` is cleared by `.cancel j` and otherwise never changes -/
+theorem keep_run : ∀ (as : List Act) {s : St}, (∀ a, a ∈ as → FanAct a) → (∀ u, FanLoc (s.thr u)) → ∀ j,
+    (run s as).keep j = if j ∈ cancelIds as then false else s.keep j
+  | [], _, _, _, _ => by simp [cancelIds]
+  | a :: as, s, hfa, hl, j => by
+    have ha := hfa a (by simp)
+    rw [run_cons, keep_run as (fun b hb => hfa b (by simp [hb])) (frame_apply a ha hl).2 j, keep_apply a ha hl j]
+    simp only [cancelIds, List.flatMap_cons, List.mem_append]
+    by_cases h1 : j ∈ cancelOf a <;> by_cases h2 : j ∈ as.flatMap cancelOf <;> simp [h1, h2]
 
 /-! ## per-listener queue order (no hypothesis on the events) -/
 
@@ -975,6 +1023,7 @@ theorem effect_apply {s : St} (a : Act) (ha : FanAct a) (hl : ∀ u, FanLoc (s.t
     · exact .silent rfl rfl rfl
   | poll t id => simp only [apply]; split <;> exact .silent rfl rfl rfl
   | release ev => exact .silent rfl rfl rfl
+  | cancel id => exact .silent rfl rfl rfl
   | step t => exact effect_step t (hl t)
   | ack t => simp only [apply]; split <;> exact .silent rfl rfl rfl
 
@@ -1015,7 +1064,7 @@ theorem thr_step_other (s : St) {t u : Nat} (h : u ≠ t) : (step s t).thr u = s
 /-- the thread an action is performed by -/
 def thrOf : Act → List Nat
   | .create t | .drop t _ | .send t _ | .poll t _ | .step t | .ack t => [t]
-  | .release _ => []
+  | .release _ | .cancel _ => []
 
 theorem thr_apply_other (s : St) (a : Act) {u : Nat} (h : u ∉ thrOf a) : (apply s a).thr u = s.thr u := by
   cases a <;> simp only [thrOf, List.mem_singleton, List.not_mem_nil, not_false_eq_true] at h <;> simp only [apply]
@@ -1038,10 +1087,10 @@ theorem thr_run_other : ∀ (as : List Act) (s : St) {u : Nat}, u ∉ as.flatMap
 
 theorem wf_of_frame {s₀ s : St} (hw : WF s₀) (hf : frameOf s = frameOf s₀) (hi : ∀ t, s.thr t = .idle) : WF s := by
   simp only [frameOf, Prod.mk.injEq] at hf
-  obtain ⟨a, b, c, d, e, f, g, h, i, j, k⟩ := hf
-  obtain ⟨w1, w2, w3, w4, w5, w6, w7, w8, w9, w10⟩ := hw
+  obtain ⟨a, b, c, d, e, f, g, i, j, k⟩ := hf
+  obtain ⟨w1, w2, w3, w4, w5, w6, w7, w8, w9⟩ := hw
   exact ⟨hi, i ▸ w2, j ▸ w3, e ▸ w4, by rw [e, a]; exact w5, by rw [j, a]; exact w6, by rw [e, j, a]; exact w7,
-    by rw [g, j]; exact w8, by rw [f, a, e]; exact w9, by rw [j, h]; exact w10⟩
+    by rw [g, j]; exact w8, by rw [f, a, e]; exact w9⟩
 
 /-- a fan-out execution after which every thread that acted is idle again ends in a `WF` state -/
 theorem wf_fan_idle {s₀ : St} (hw : WF s₀) (as : List Act) (hfa : ∀ a, a ∈ as → FanAct a)
@@ -1226,7 +1275,7 @@ theorem send_effect (s : St) (u ev' : Nat) :
         · exact .inl h
   · exact ⟨fun t e i h => .inl h, .inl rfl⟩
 
-/-- `poll`, `release`, `ack`: no thread's progress changes, `sent` does not change -/
+/-- `poll`, `release`, `cancel`, `ack`: no thread's progress changes, `sent` does not change -/
 theorem other_effect (s : St) (a : Act) (ha : FanAct a) (h1 : ∀ u ev, a ≠ .send u ev) (h2 : ∀ u, a ≠ .step u) :
     (∀ t e i, prog ((apply s a).thr t) = some (e, i) → prog (s.thr t) = some (e, i)) ∧ (apply s a).sent = s.sent := by
   cases a with
@@ -1244,6 +1293,7 @@ theorem other_effect (s : St) (a : Act) (ha : FanAct a) (h1 : ∀ u ev, a ≠ .s
       · exact h
     · exact ⟨fun _ _ _ h => h, rfl⟩
   | release ev => exact ⟨fun _ _ _ h => h, rfl⟩
+  | cancel id => exact ⟨fun _ _ _ h => h, rfl⟩
   | ack u =>
     simp only [apply]
     split
